@@ -198,6 +198,9 @@ class Gen:
                     cd["injects"].append([k, has_default])
         # user code that renders another component on its own inside get_context_data, and falls back when that fails
         cd["tryfail"] = bool(self.P.get("tryfail")) and ch.chance(1, self.P["tryfail"], "tryfail")
+        # ... or that succeeds (result unused), and user code that re-seeds Python's global PRNG
+        cd["nested_ok"] = bool(self.P.get("tryfail")) and ch.chance(1, self.P["tryfail"], "nested_ok")
+        cd["reseed"] = bool(self.P.get("tryfail")) and ch.chance(1, self.P["tryfail"], "reseed")
         if self.P.get("assets"):
             self.assets(cd, i)
         if self.P.get("collide"):
